@@ -1077,7 +1077,7 @@ func rulesLocalClamp(c *Ctx, r *Report) {
 				"a path from this score store reaches the next iteration without the `score < 0 => zero cell` clamp: a negative cell survives (traceback panics on it / alignments may start below zero)")
 		}
 	}
-	r.floor("CLAMP", n, 5, "score stores in Local (2 edges x (score, gap-open) + decideOnStep)")
+	r.floor("CLAMP", n, 3, "score stores in Local (2 edges x (score, gap-open) + decideOnStep)")
 }
 
 // traceLoopVar: the integer phi that indexes the table (parameter 0) in a traceback function.
